@@ -471,17 +471,26 @@ func (c *compiler) evalUpdateIndex(left, index, value interface{}) error {
 // holds reports whether is() is true for v or for anything v contains.
 // Index assignment uses it to refuse tying a value into itself: a slice or
 // map that contains itself can be built in a template (a[0] = a), and
-// printing one never ends.
+// printing one never ends. Only what a template can build and the printers
+// descend into is looked at - slices, arrays and maps, and what their
+// interface-typed elements hold. Pointers and structs are the caller's own
+// data: they are not followed (the printers do not follow them either, and
+// their owner may be changing them under a lock of its own).
 func holds(v reflect.Value, is func(reflect.Value) bool, seen map[[2]uintptr]bool) bool {
 	switch v.Kind() {
 	case reflect.Interface:
 		return !v.IsNil() && holds(v.Elem(), is, seen)
-	case reflect.Ptr, reflect.Map, reflect.Slice:
+	case reflect.Map, reflect.Slice:
 		if v.IsNil() {
 			return false
 		}
 		if is(v) {
 			return true
+		}
+		switch v.Type().Elem().Kind() {
+		case reflect.Interface, reflect.Map, reflect.Slice, reflect.Array:
+		default:
+			return false
 		}
 		// data handed in from Go may already be cyclic: visit everything once
 		at := [2]uintptr{v.Pointer(), 0}
@@ -495,34 +504,27 @@ func holds(v reflect.Value, is func(reflect.Value) bool, seen map[[2]uintptr]boo
 			return false
 		}
 		seen[at] = true
-	case reflect.Array, reflect.Struct:
+	case reflect.Array:
+		switch v.Type().Elem().Kind() {
+		case reflect.Interface, reflect.Map, reflect.Slice, reflect.Array:
+		default:
+			return false
+		}
 	default:
 		return false
 	}
 
-	switch v.Kind() {
-	case reflect.Ptr:
-		return holds(v.Elem(), is, seen)
-	case reflect.Map:
+	if v.Kind() == reflect.Map {
 		for it := v.MapRange(); it.Next(); {
 			if holds(it.Value(), is, seen) {
 				return true
 			}
 		}
-	case reflect.Slice, reflect.Array:
-		switch v.Type().Elem().Kind() {
-		case reflect.Interface, reflect.Ptr, reflect.Map, reflect.Slice, reflect.Array, reflect.Struct:
-			for i := 0; i < v.Len(); i++ {
-				if holds(v.Index(i), is, seen) {
-					return true
-				}
-			}
-		}
-	case reflect.Struct:
-		for i := 0; i < v.NumField(); i++ {
-			if holds(v.Field(i), is, seen) {
-				return true
-			}
+		return false
+	}
+	for i := 0; i < v.Len(); i++ {
+		if holds(v.Index(i), is, seen) {
+			return true
 		}
 	}
 	return false
